@@ -29,7 +29,7 @@ Definition goval_of_token (t : token) : goval :=
 
 (* library functions that are not modelled: their results are inputs *)
 Record oracles := mkOracles {
-  o_float : bytes -> option (N * N);   (* strconv.ParseFloat(s, 64) = v, nil:  (Float64bits v, Float32bits (float32 v)) *)
+  o_float : bytes -> option N * option N;   (* (strconv.ParseFloat(s, 64) = v, nil: Float64bits v ;  strconv.ParseFloat(s, 32) = v, nil: Float32bits (float32 v)) *)
   o_time : bytes -> option (Z * Z);    (* time.Parse(time.RFC3339, s) = t, nil: (t.Unix(), t.Nanosecond()) *)
   o_decimal : bytes -> option (bytes * Z)   (* decimal.NewFromString(s) = d, nil:  (d.String(), d.Exponent()) *)
 }.
@@ -116,23 +116,21 @@ Definition int_from_go (k : scalar_kind) (v : goval) : outcome (option pval) :=
   end.
 
 (* ------------------------------------------------------------ floats *)
-Definition f64_mag (bits : N) : N := bits mod 9223372036854775808.            (* clear the sign bit *)
-Definition f64_is_nan (bits : N) : bool := 9218868437227405312 <? f64_mag bits.   (* > 0x7FF0000000000000 *)
-(* val > math.MaxFloat32 || val < -math.MaxFloat32 (false for NaN) *)
-Definition f32_out_of_range (bits : N) : bool :=
-  negb (f64_is_nan bits) && (5183643170566569984 <? f64_mag bits).             (* > 0x47EFFFFFE0000000 *)
-
+(* the Field_Float arm: the text is parsed at the precision of the field
+   (bitSize 32 for FLOAT32), so it is rounded once.  The range test that follows
+   in the Go code (float32(val) infinite while val is finite) cannot fire for a
+   value that ParseFloat(_, 32) produced. *)
 Definition float_from_go (orc : oracles) (k : scalar_kind) (v : goval) : outcome (option pval) :=
-  let parsed :=
+  let text :=
     match v with
-    | GNum l => match o_float orc l with Some r => Ok r | None => Err "json.Number.Float64" end
-    | GStr s => match o_float orc s with Some r => Ok r | None => Err "strconv.ParseFloat" end
+    | GNum l => Ok l
+    | GStr s => Ok s
     | GNil | GBool _ => Err "type: value can't float"
     end in
-  obind parsed (fun r =>
+  obind text (fun s =>
     match k with
-    | KFloat64 => Ok (Some (VFloat (fst r)))
-    | KFloat32 => if f32_out_of_range (fst r) then Err "out of range for float32" else Ok (Some (VFloat (snd r)))
+    | KFloat64 => match fst (o_float orc s) with Some b => Ok (Some (VFloat b)) | None => Err "strconv.ParseFloat" end
+    | KFloat32 => match snd (o_float orc s) with Some b => Ok (Some (VFloat b)) | None => Err "strconv.ParseFloat" end
     | _ => Err "unsupported float format"
     end).
 
@@ -332,7 +330,7 @@ Definition has_arm (tbl : list (string * list string)) (k : scalar_kind) (ty : s
   existsb (String.eqb ty) (arms_of tbl (switch_name k)).
 
 (* behaviour: a dynamic type is "handled" when the result is not a type error *)
-Definition no_oracles : oracles := mkOracles (fun _ => None) (fun _ => None) (fun _ => None).
+Definition no_oracles : oracles := mkOracles (fun _ => (None, None)) (fun _ => None) (fun _ => None).
 Definition is_type_error {A} (o : outcome A) : bool :=
   match o with
   | Err c => String.prefix "type:" c
